@@ -4,7 +4,7 @@ CONSTANTS
   MaxCrashes = 2
   F8Fixed = TRUE
   F9Fixed = TRUE
-  F15Fixed = TRUE
+  FccFixed = TRUE
   CommitBeforeCheckpoint = TRUE
   EnvAtomic = TRUE
 INVARIANTS TypeOK ResolvedOnlyWhenEmpty MarkedOnlyWhenResolved UpstreamConsistent
